@@ -35,4 +35,21 @@ MUTANTS = [
       note="needs a window longer than 7 with more than one window"),
     m("comp-default-groups-H-missing", ["C10"], SEQ, "grps.append(['Q','N','S','T','G','H','C'])", "grps.append(['Q','N','S','T','G','C'])"),
     m("parse-group-no-upper-2", ["C10"], SEQ, "localgrp = set([x.upper() for x in localgrp])", "localgrp = set([x for x in localgrp])"),
+    # ---- C11
+    m("wf-log-base-2", ["C11"], CX, "CWF = p * (math.log(p, len(alphabet))) + CWF", "CWF = p * (math.log(p, 2)) + CWF"),
+    m("wf-loop-lt", ["C11"], CX, "        CWF_array = []\n\n        # for each position\n        while (step <= len(sequence) - windowSize):", "        CWF_array = []\n\n        # for each position\n        while (step < len(sequence) - windowSize) or step == 0:"),
+    m("cx-index-start-shift", ["C11"], CX, "index_start = (flank_start+1) + spacing//2", "index_start = (flank_start+2) + spacing//2\n        index_end = index_end + 1",
+      note="positions shifted by one: last position can exceed N"),
+    m("lzw-norm-seqlen", ["C11"], CX, "                LZW = float(n) / windowSize", "                LZW = float(n) / len(sequence)"),
+    m("lc-window-from-prev", ["C11"], CX, "                position = step + i\n\n                ngram = ''.join(sequence[position:position + wordSize])", "                position = max(0, step - 1) + i\n\n                ngram = ''.join(sequence[position:position + wordSize])",
+      note="LC looks one residue to the left of its window"),
+    m("cx-type-rhp-allowed", ["C11"], SP, "allowed_types = ('WF', 'LC', 'LZW')", "allowed_types = ('WF', 'LC', 'LZW', 'RHP')"),
+    # (removing the WF window guard is an equivalent mutant: an over-long window then dies with ZeroDivisionError, still a rejection)
+    # ---- C12
+    m("alph6-C-into-LVIM", ["C12", "C11"], CX, "            for x in sequence:\n                if x in ('L', 'V', 'I', 'M'):\n                    aa.append('L')\n                elif x in ('A', 'S', 'G', 'T'):\n                    aa.append('A')\n                elif x in ('P', 'H', 'C'):", "            for x in sequence:\n                if x in ('L', 'V', 'I', 'M', 'C'):\n                    aa.append('L')\n                elif x in ('A', 'S', 'G', 'T'):\n                    aa.append('A')\n                elif x in ('P', 'H', 'C'):"),
+    m("alph12-QN-swapped", ["C12"], CX, "                elif x in ('E', 'Q'):\n                    aa.append('E')\n                elif x in ('D', 'N'):\n                    aa.append('D')", "                elif x in ('E', 'N'):\n                    aa.append('E')\n                elif x in ('D', 'Q'):\n                    aa.append('D')"),
+    m("user-alphabet-no-value-check", ["C12"], CX, "                if converted not in TWENTY_AAs:", "                if False and converted not in TWENTY_AAs:"),
+    m("alph-size-7-accepted", ["C12"], CX, "if alphabetSize not in [2, 3, 4, 5, 6, 8, 10, 11, 12, 15, 18, 20]:", "if alphabetSize not in [2, 3, 4, 5, 6, 7, 8, 10, 11, 12, 15, 18, 20]:"),
+    m("alph8-H-rep-K", ["C12"], CX, "                elif x in ('H'):\n                    aa.append('H')", "                elif x in ('H'):\n                    aa.append('K')"),
+    m("alph11-returned-alphabet-Q-to-N", ["C12"], CX, "eleven = ['L', 'C', 'A', 'G', 'S', 'P', 'F', 'E', 'K', 'H', 'Q']", "eleven = ['L', 'C', 'A', 'G', 'S', 'P', 'F', 'E', 'K', 'H', 'N']"),
 ]
